@@ -29,12 +29,13 @@ CONSTANTS
 VARIABLES
   inst,       \* [Ids -> record]
   cnt,        \* matches of the one pattern (expectation: exactly 1)
+  lends,      \* calls of the lending required method (mentioned by a clause: must be called at least once)
   reasons,    \* number of recorded mock-induced errors
   verified,   \* how many times counts were judged (history variable)
   nextVal,    \* next fresh lent value id
   gone,       \* set of value ids destroyed so far
   steps, out
-vars == <<inst, cnt, reasons, verified, nextVal, gone, steps, out>>
+vars == <<inst, cnt, lends, reasons, verified, nextVal, gone, steps, out>>
 
 Ids == 0..MaxInst
 StoredVal == 111          \* the value stored in the pattern: lives as long as the shared state
@@ -44,7 +45,7 @@ Live(i) == inst[i].alive
 Free == { i \in Ids : ~inst[i].alive /\ i # 0 }
 UserVisible(i) == Live(i) /\ ~inst[i].owned
 RefCnt(f) == Cardinality({ i \in Ids : f[i].alive })
-Unmet == cnt # 1
+Unmet == cnt # 1 \/ lends = 0
 
 \* everything instance i owns, transitively (helper clone, instances lent into its value chain)
 RECURSIVE OwnedBy(_, _, _)
@@ -70,7 +71,7 @@ O(res) == [res |-> res, unw |-> FALSE, orig |-> FALSE, others |-> FALSE, foreign
 OE(res, ev) == [O(res) EXCEPT !.ev = ev]
 
 Init == /\ inst = [i \in Ids |-> IF i = 0 THEN [Dead EXCEPT !.alive = TRUE, !.orig = TRUE] ELSE Dead]
-        /\ cnt = 0 /\ reasons = 0 /\ verified = 0 /\ nextVal = 1 /\ gone = {}
+        /\ cnt = 0 /\ lends = 0 /\ reasons = 0 /\ verified = 0 /\ nextVal = 1 /\ gone = {}
         /\ steps = 0 /\ out = O("init")
 
 (***************************************************************************)
@@ -107,7 +108,7 @@ Clone(i) ==
   /\ En("clone") /\ Step /\ UserVisible(i) /\ Free # {}
   /\ inst' = [inst EXCEPT ![Lowest(Free)] = [Dead EXCEPT !.alive = TRUE, !.vid = inst[i].vid, !.thr = inst[i].thr]]
   /\ out' = [OE("silent", Ev("clone", i, 0, inst[i].thr, 0, "")) EXCEPT !.new = Lowest(Free)]
-  /\ UNCHANGED <<cnt, reasons, verified, nextVal, gone>>
+  /\ UNCHANGED <<cnt, lends, reasons, verified, nextVal, gone>>
 \* a provided method called on i with no clause: the default body runs on a lazily created helper clone
 Delegate(i) ==
   /\ En("delegate") /\ Step /\ UserVisible(i)
@@ -116,26 +117,39 @@ Delegate(i) ==
      ELSE /\ Free # {}
           /\ inst' = [inst EXCEPT ![Lowest(Free)] = [Dead EXCEPT !.alive = TRUE, !.vid = inst[i].vid, !.thr = inst[i].thr,
                                                                  !.owned = TRUE, !.owner = i, !.helper = TRUE]]
-  /\ out' = OE("ret:default", Ev("delegate", i, 0, inst[i].thr, 0, "")) /\ UNCHANGED <<cnt, reasons, verified, nextVal, gone>>
+  /\ out' = OE("ret:default", Ev("delegate", i, 0, inst[i].thr, 0, "")) /\ UNCHANGED <<cnt, lends, reasons, verified, nextVal, gone>>
+\* a provided method with a pinned receiver called on i; its body calls a required method on the helper, whose
+\* answer lends a value through the instance it is given: the value lives in the helper's chain
+PinLend(i) ==
+  /\ En("pinlend") /\ Step /\ UserVisible(i) /\ nextVal <= MaxVals
+  /\ LET has == \E h \in Ids : Live(h) /\ inst[h].helper /\ inst[h].owner = i IN
+       /\ (has \/ Free # {})
+       /\ LET h  == IF has THEN CHOOSE x \in Ids : Live(x) /\ inst[x].helper /\ inst[x].owner = i ELSE Lowest(Free)
+              f0 == IF has THEN inst
+                    ELSE [inst EXCEPT ![h] = [Dead EXCEPT !.alive = TRUE, !.vid = inst[i].vid, !.thr = inst[i].thr, !.owned = TRUE, !.owner = i, !.helper = TRUE]]
+          IN inst' = [f0 EXCEPT ![h].chain = Append(@, nextVal)]
+  /\ lends' = lends + 1 /\ nextVal' = nextVal + 1
+  /\ out' = [OE("ret:lent", Ev("pinlend", i, 0, inst[i].thr, 0, "")) EXCEPT !.new = nextVal]
+  /\ UNCHANGED <<cnt, reasons, verified, gone>>
 \* i.make_ref(j): clone j moves into i's value chain
 Lend(i, j) ==
   /\ En("lend") /\ Step /\ UserVisible(i) /\ UserVisible(j) /\ i # j /\ ~inst[j].orig /\ inst[i].thr = inst[j].thr
   /\ inst' = [inst EXCEPT ![j].owned = TRUE, ![j].owner = i]
-  /\ out' = OE("silent", Ev("lend", i, j, inst[i].thr, 0, "")) /\ UNCHANGED <<cnt, reasons, verified, nextVal, gone>>
+  /\ out' = OE("silent", Ev("lend", i, j, inst[i].thr, 0, "")) /\ UNCHANGED <<cnt, lends, reasons, verified, nextVal, gone>>
 Move(i, t) ==
   /\ En("move") /\ Step /\ UserVisible(i) /\ inst[i].thr # t
   /\ inst' = [j \in Ids |-> IF j = i \/ j \in Owned(inst, i) THEN [inst[j] EXCEPT !.thr = t] ELSE inst[j]]
-  /\ out' = OE("silent", Ev("move", i, 0, t, 0, "")) /\ UNCHANGED <<cnt, reasons, verified, nextVal, gone>>
+  /\ out' = OE("silent", Ev("move", i, 0, t, 0, "")) /\ UNCHANGED <<cnt, lends, reasons, verified, nextVal, gone>>
 
 \* ---- calls ----
 CallHit(i) ==
   /\ En("hit") /\ Step /\ UserVisible(i) /\ cnt < 3
   /\ cnt' = cnt + 1 /\ out' = OE("ret:111", Ev("hit", i, 0, inst[i].thr, 0, ""))
-  /\ UNCHANGED <<inst, reasons, verified, nextVal, gone>>
+  /\ UNCHANGED <<inst, lends, reasons, verified, nextVal, gone>>
 CallErr(i) ==    \* a call nothing answers: recorded, then the call panics (caught by the caller here)
   /\ En("err") /\ Step /\ UserVisible(i) /\ reasons < 2
   /\ reasons' = reasons + 1 /\ out' = OE("panic:mock", Ev("err", i, 0, inst[i].thr, 0, ""))
-  /\ UNCHANGED <<inst, cnt, verified, nextVal, gone>>
+  /\ UNCHANGED <<inst, cnt, lends, verified, nextVal, gone>>
 
 \* ---- value chain (C13) ----
 \* k values lent in one borrow epoch through &self; every earlier reference of the epoch is re-read
@@ -145,7 +159,7 @@ MakeRef(i, k) ==
   /\ inst' = [inst EXCEPT ![i].chain = @ \o [x \in 1..k |-> nextVal + x - 1]]
   /\ nextVal' = nextVal + k
   /\ out' = [OE("refs", Ev("make_ref", i, 0, inst[i].thr, k, "")) EXCEPT !.new = nextVal]
-  /\ UNCHANGED <<cnt, reasons, verified, gone>>
+  /\ UNCHANGED <<cnt, lends, reasons, verified, gone>>
 \* make_mut needs exclusive access: the old chain (and instances lent into it) is released
 MakeMut(i) ==
   /\ En("make_mut") /\ Step /\ UserVisible(i) /\ nextVal <= MaxVals
@@ -156,7 +170,7 @@ MakeMut(i) ==
      IN /\ inst' = f2 /\ gone' = gone \cup vals
         /\ out' = [OE("mutref", Ev("make_mut", i, 0, inst[i].thr, 0, "")) EXCEPT !.dropped = vals \ gone, !.new = nextVal]
   /\ nextVal' = nextVal + 1
-  /\ UNCHANGED <<cnt, reasons, verified>>
+  /\ UNCHANGED <<cnt, lends, reasons, verified>>
 
 \* ---- ends of life ----
 DropI(i, unw, ev) ==
@@ -167,7 +181,7 @@ DropI(i, unw, ev) ==
        /\ Finish1(Gone(r[1], i), ReleasedVals(inst, i),
                   [OE(r[2], ev) EXCEPT !.unw = unw, !.orig = inst[i].orig, !.others = RefCnt(r[1]) > 1, !.foreign = inst[i].thr # Creator])
        /\ verified' = IF r[3] THEN verified + 1 ELSE verified
-Drop(i) == /\ En("drop") /\ Step /\ UserVisible(i) /\ DropI(i, FALSE, Ev("drop", i, 0, inst[i].thr, 0, "")) /\ UNCHANGED <<cnt, reasons, nextVal>>
+Drop(i) == /\ En("drop") /\ Step /\ UserVisible(i) /\ DropI(i, FALSE, Ev("drop", i, 0, inst[i].thr, 0, "")) /\ UNCHANGED <<cnt, lends, reasons, nextVal>>
 
 Verify(i) ==
   /\ En("verify") /\ Step /\ UserVisible(i)
@@ -177,7 +191,7 @@ Verify(i) ==
           /\ Finish1(Gone(r[1], i), ReleasedVals(inst, i),
                      [OE(r[2], Ev("verify", i, 0, inst[i].thr, 0, "")) EXCEPT !.orig = TRUE, !.others = RefCnt(r[1]) > 1, !.foreign = inst[i].thr # Creator])
           /\ verified' = IF r[3] THEN verified + 1 ELSE verified
-  /\ UNCHANGED <<cnt, reasons, nextVal>>
+  /\ UNCHANGED <<cnt, lends, reasons, nextVal>>
 \* report(): the same verdict as an exit code; panics exactly where verify() panics for clones/thread
 Report(i) ==
   /\ En("report") /\ Step /\ UserVisible(i)
@@ -186,13 +200,13 @@ Report(i) ==
      IN /\ Finish1(Gone(r[1], i), ReleasedVals(inst, i),
                    [OE(res, Ev("report", i, 0, inst[i].thr, 0, "")) EXCEPT !.orig = inst[i].orig, !.others = RefCnt(r[1]) > 1, !.foreign = inst[i].thr # Creator])
         /\ verified' = IF r[3] THEN verified + 1 ELSE verified
-  /\ UNCHANGED <<cnt, reasons, nextVal>>
+  /\ UNCHANGED <<cnt, lends, reasons, nextVal>>
 NoVerify(i) ==
   /\ En("noverify") /\ Step /\ UserVisible(i)
   /\ IF ~inst[i].orig
      THEN Finish1(Gone(inst, i), ReleasedVals(inst, i), OE("panic:noverify-on-clone", Ev("noverify", i, 0, inst[i].thr, 0, "")))
      ELSE /\ inst' = [inst EXCEPT ![i].vid = FALSE] /\ out' = OE("silent", Ev("noverify", i, 0, inst[i].thr, 0, "")) /\ UNCHANGED gone
-  /\ UNCHANGED <<cnt, reasons, verified, nextVal>>
+  /\ UNCHANGED <<cnt, lends, reasons, verified, nextVal>>
 
 \* ---- a panic on thread t (C11) ----
 \* A call on instance e panics, or plain user code does, on thread t; while the thread unwinds,
@@ -205,7 +219,9 @@ NoVerify(i) ==
 \*          "matcher" : the input matcher panics: nothing has been counted yet
 \*          "clone"   : the pattern matched and was counted, then the stored value's Clone panics
 NoInst == MaxInst + 1
-Origins == {"user", "mock", "real", "default", "matcher", "clone"}
+\*          "userfresh": like "user", and a destructor running during the unwinding builds a fresh mock with an
+\*                      unmet expectation and drops it again (a scope guard's cleanup code): silent as well
+Origins == {"user", "userfresh", "mock", "real", "default", "matcher", "clone"}
 PanicOn(t, e, origin, i) ==
   /\ En("unwind") /\ Step
   /\ UserVisible(e) /\ inst[e].thr = t
@@ -214,6 +230,7 @@ PanicOn(t, e, origin, i) ==
   /\ (origin = "default" => ((\E h \in Ids : Live(h) /\ inst[h].helper /\ inst[h].owner = e) \/ Free # {}))
   /\ reasons' = IF origin = "mock" THEN reasons + 1 ELSE reasons
   /\ cnt' = IF origin = "clone" THEN cnt + 1 ELSE cnt
+  /\ UNCHANGED lends
   /\ LET f0 == IF origin = "default" /\ ~(\E h \in Ids : Live(h) /\ inst[h].helper /\ inst[h].owner = e)
                THEN [inst EXCEPT ![Lowest(Free)] = [Dead EXCEPT !.alive = TRUE, !.vid = inst[e].vid, !.thr = inst[e].thr,
                                                                       !.owned = TRUE, !.owner = e, !.helper = TRUE]]
@@ -241,6 +258,7 @@ PanicOn(t, e, origin, i) ==
   /\ UNCHANGED nextVal
 
 Next ==
+  \/ \E i \in Ids : PinLend(i)
   \/ \E i \in Ids : Clone(i) \/ Delegate(i) \/ CallHit(i) \/ CallErr(i) \/ Drop(i) \/ Verify(i) \/ Report(i) \/ NoVerify(i) \/ MakeMut(i)
   \/ \E i \in Ids, k \in 1..2 : MakeRef(i, k)
   \/ \E i, j \in Ids : Lend(i, j)
@@ -256,7 +274,7 @@ NoDoublePanic == out.unw => out.res = "silent"
 \* C09: dropping / reporting a clone never verifies and never panics
 ClonesNeverVerify ==
   (~out.orig /\ out.res \notin {"panic:verify-on-clone", "panic:noverify-on-clone", "panic:mock", "init"})
-     => out.res \in {"silent", "ret:111", "ret:default", "refs", "mutref", "code:SUCCESS"}
+     => out.res \in {"silent", "ret:111", "ret:default", "ret:lent", "refs", "mutref", "code:SUCCESS"}
 \* C09: the original's verification panics iff a clone is alive, else iff on a foreign thread (checked after the unwinding guard)
 VerifyPanicsIff ==
   (out.orig /\ ~out.unw /\ out.ev.op \in {"verify", "report"}) =>
